@@ -141,6 +141,17 @@ def run_native(dh, prop, tier, seed, out_dir, budget_s, procs, proc_ms, families
                     d = json.load(open(out)); results.append(d)
                     if os.environ.get('VERIF_STOP_ON_VIOLATION') and any(v['property'] == prop for v in d.get('violations', [])): t_end = time.time()
                 except Exception as e: inconclusive.append('process %d: unreadable output (%s)' % (idx, e))
+            elif not tool and rc in (-11, -7, -4, -6, 139, 135, 132, 134):
+                # The harness only uses the safe API: a segmentation fault / bus error / illegal instruction / abort of the process is memory
+                # unsafety (or a panic inside a destructor during unwinding) in the code under test. It breaks C14 whatever is being checked;
+                # it is also reported under the property being checked when that property is about the lifetime of the value (C05).
+                sig = {-11: 'SIGSEGV', 139: 'SIGSEGV', -7: 'SIGBUS', 135: 'SIGBUS', -4: 'SIGILL', 132: 'SIGILL', -6: 'SIGABRT', 134: 'SIGABRT'}[rc]
+                for vp in sorted(set(['C14'] + ([prop] if prop == 'C05' else []))):
+                    tool_violations.append(dict(property=vp, kind='harness_process_crashed', signature='crash:%s' % sig,
+                        detail='native harness process %d (profile %s, seed %d, noise %s) died with %s: %s' % (idx, prop, pseed, fam, sig, txt[-300:].replace('\n', ' | ')),
+                        profile=prop, seed=pseed, run_index=0, noise_family=fam, engine='native', stderr_file='',
+                        run=dict(run_index=0, noise_plan=fam, outcome='process crashed', program={}, diagnosis=txt[-4000:].split('\n')[-60:])))
+                if os.environ.get('VERIF_STOP_ON_VIOLATION') and prop in ('C05', 'C14'): t_end = time.time()
             elif not tool:
                 inconclusive.append('process %d exited with code %s and no output: %s' % (idx, rc, txt[-300:].replace('\n', ' | ')))
             if tool:
@@ -378,6 +389,9 @@ def replay(path):
         log('Miri replay (%s): %s' % (v['miriflags'], 'reproduced' if hit else 'not reproduced'))
         for c in cls: log('  ', c[0], c[1], c[3][:300])
         return 1 if hit else 0
+    if v.get('kind') == 'harness_process_crashed':
+        log('the harness process died; re-run the check (same seed) to look for it again: real-thread schedules are not replayable')
+        return 0
     if v.get('engine') in ('asan', 'asan-nohooks', 'tsan', 'memcheck'):
         log('sanitizer report: see %s; re-run the check with VERIF_ENGINES=%s to look for it again (real-thread schedules are not replayable)' % (v.get('stderr_file'), v['engine'].split('-')[0]))
         return 0
